@@ -32,11 +32,12 @@ Proof. exact Proofs.Summ.apply_sound. Qed.
 Theorem apply_in_out_consistent : forall s sg, g_in (apply s sg) = g_out (apply s sg).
 Proof. exact Proofs.Summ.apply_in_out. Qed.
 
-(** The full statement about the pinned table.  It does NOT hold of the pinned tree: 16 entries do not conform
-    (corpus/c09_known_nonconforming.txt: 2 of them lose a real flow - strings.Join and the WithContext method of net/http.Request - and are
-    findings in known_findings.txt; 14 list positions that name nothing and lose no flow).  The statement is kept visible here
-    and proved with the committed, individually justified exception list [gen_std_known].  A new non-conforming entry makes
-    the proof of [std_table_conforms_except] fail. *)
+(** The full statement about the table.  It does NOT hold as stated: 14 entries list positions that name no parameter or
+    result of their function (no flow is lost: corpus/c09_known_nonconforming.txt gives the rationale per entry; they are
+    reported in evidence only).  Two further entries that DID lose a real flow - strings.Join and the WithContext method of
+    net/http.Request - were repaired in /repo commit 89e1de2 and are no longer excepted.  The statement is kept visible here
+    and proved with the committed exception list [gen_std_known]; a new non-conforming entry makes the proof of
+    [std_table_conforms_except] fail. *)
 Definition std_table_conforms_stmt : Prop :=
   forallb (fun e => conforms (e_summary e) (e_sig e)) gen_std_table = true.
 
@@ -58,8 +59,8 @@ Theorem std_impl_edges_are_written : forall e, In e gen_std_table -> mem_string 
   forall x, In x (e_impl_out e) <-> In x (written (e_summary e)).
 Proof. exact (table_impl_written gen_std_known gen_std_table std_table_conforms_except std_apply_matches_impl). Qed.
 
-(** Non-vacuity and the refutation on the pinned tree (literal copies of two pinned entries and their go1.23
-    signatures, so that these examples do not depend on the regenerated table). *)
+(** Non-vacuity and the refutation witness (a literal copy of the strings.Join entry as it was before commit 89e1de2 and of
+    its repaired form, with the go1.23 signature, so that these examples do not depend on the regenerated table). *)
 Example strings_Join_pinned_nonconforming :
   conforms (mk_summary [[0%Z]; [1%Z]] [[0%Z]; [1%Z]]) (mk_sig 2 [1; 1; 1]) = false
   /\ ~ In (ER 1 1%Z) (edges (apply (mk_summary [[0%Z]; [1%Z]] [[0%Z]; [1%Z]]) (mk_sig 2 [1; 1; 1]))).
